@@ -6,9 +6,11 @@
 
    What is proved here: the time side of the property (frame grid, not before the line, inside the line's
    transmission window, frames per word), the channel filter and the single action of doubled control codes.
-   Of the display side only the protocol skeleton is proved, on the model: what is loaded in pop-on style is not
-   visible before the EOC; EOC starts the buffered caption and ends the displayed one at its stamp; EDM ends the
-   displayed caption one frame later; after a carriage return a roll-up caption has at most `depth` rows.
+   Of the display side the protocol skeleton is proved, on the model: what is loaded in pop-on style is not visible
+   before the EOC; EOC starts the buffered caption and ends the displayed one at its stamp; EDM ends the displayed
+   caption one frame later; after a carriage return a roll-up caption has at most `depth` rows; while the cursor is at
+   the end of the row being written, characters are appended in the order received (three styles), a backspace removes
+   the preceding character and an extended character replaces it.
    What is NOT proved: the simulation `rows_of_doc (to_model ..) f = screen .. f` (C08_popon and its roll-up /
    paint-on analogues, DESIGN section 5) - which characters sit on which rows with which attributes.  It is false at
    full strength of the faithful model (Findings/C08.v, fourteen recorded findings) and is compared by the
@@ -17,7 +19,7 @@
    and is left unproved. *)
 From Coq Require Import QArith.
 From TT Require Import Base.Prelude Base.SccTypes Base.SccDoc Model.SccWord Model.TimeCode Model.SccReader.
-From TT Require Import Proofs.C08.Stamps Proofs.C08.Words Proofs.C08.Protocol.
+From TT Require Import Proofs.C08.Stamps Proofs.C08.Words Proofs.C08.Protocol Proofs.C08.Text.
 Open Scope Z_scope.
 
 (* every time code stored in a pushed paragraph (begin, end, span begins) is the time code of one of the file's
@@ -109,7 +111,39 @@ Theorem C08_rollup_depth : forall c w a, c_err c = false -> is_dup c w = false -
   exists a', c_act (step c w) = Some a' /\ zlen (p_lines a') <= Z.max (c_depth c) 1.
 Proof. exact rollup_depth. Qed.
 
+(* text accumulates as received: while the cursor is at the end of the row being written (the situation of the three
+   protocols while a row is transmitted), a run of characters is appended to that row, in pop-on style (buffer), roll-up
+   style and paint-on style (displayed, paint-on styled caption), and the cursor is at the end of the row again *)
+Theorem C08_text_accumulates : forall c word,
+  (c_style c = sPopOn \/ c_style c = sRollUp \/ (c_style c = sPaintOn /\ exists a, c_act c = Some a /\ p_style a = sPaintOn)) ->
+  target_ready c -> word <> [] ->
+  target_ready (process_text c word) /\ target_text (process_text c word) = target_text c ++ word.
+Proof. exact text_accumulates. Qed.
+(* backspace erases the preceding character (when the last text element of the row holds it) ... *)
+Theorem C08_backspace_removes_last : forall c p, target c = Some p -> row_ready_ne p ->
+  exists p', target (backspace c) = Some p' /\ row_ready p' /\ row_text p' = removelast (row_text p) /\
+             c_style (backspace c) = c_style c /\ p_style p' = p_style p.
+Proof. exact backspace_removes_last. Qed.
+(* ... and an extended character replaces it (SccLine.process: backspace(), then the character) *)
+Theorem C08_extended_replaces : forall c p ch, target c = Some p -> row_ready_ne p ->
+  (c_style c = sPopOn \/ c_style c = sRollUp \/ (c_style c = sPaintOn /\ p_style p = sPaintOn)) ->
+  target_ready (process_text (backspace c) [ch]) /\
+  target_text (process_text (backspace c) [ch]) = removelast (row_text p) ++ [ch].
+Proof. exact extended_replaces. Qed.
+
 (* non-vacuity: the hypotheses are met by concrete, non-trivial values *)
+(* after RCL, PAC row 15, "AB" the buffer is ready at the end of its row, which reads AB *)
+Example C08_example_ready : exists p, target (fold_left step [5152; 5232; 16706] (ctx_init 0)) = Some p /\
+                                      row_ready_ne p /\ row_ready p /\ row_text p = [65; 66].
+Proof.
+  eexists. split; [vm_compute; reflexivity|]. split; [|split].
+  - exists 15, (mkL 15 0 2 [mkT None [65; 66] 2 (mkTS (-1) false false (-1))] 0), [], (mkT None [65; 66] 2 (mkTS (-1) false false (-1))).
+    repeat split; try reflexivity; try discriminate; try lia. cbn. repeat constructor; cbn; intuition discriminate.
+  - exists 15, (mkL 15 0 2 [mkT None [65; 66] 2 (mkTS (-1) false false (-1))] 0).
+    split; [reflexivity|]. split; [reflexivity|]. split; [|split; reflexivity].
+    exists [], (mkT None [65; 66] 2 (mkTS (-1) false false (-1))). repeat split.
+  - reflexivity.
+Qed.
 Example C08_example_ctl : ctl 5167 kEOC /\ ctl 37932 kEDM /\ ctl 5165 kCR /\ loads_buffer 5232 = true /\ loads_buffer 16706 = true /\
                           loads_buffer 5167 = false.
 Proof. vm_compute. repeat split. Qed.
@@ -123,4 +157,5 @@ Print Assumptions C08_stamps.  Print Assumptions C08_times_on_line_grid.  Print 
 Print Assumptions C08_not_before_line.  Print Assumptions C08_frames_per_word.  Print Assumptions C08_within_word_window_partial.
 Print Assumptions C08_stamp_never_late.  Print Assumptions C08_channel_block.  Print Assumptions C08_channel_filter_partial.
 Print Assumptions C08_doubled_once.  Print Assumptions C08_popon_invisible_until_eoc.  Print Assumptions C08_popon_eoc_flip.
-Print Assumptions C08_edm_erases.  Print Assumptions C08_rollup_depth.
+Print Assumptions C08_edm_erases.  Print Assumptions C08_rollup_depth.  Print Assumptions C08_text_accumulates.
+Print Assumptions C08_backspace_removes_last.  Print Assumptions C08_extended_replaces.
